@@ -65,6 +65,7 @@ def parse_row(cons, fld):
     return (who, kind, colour, sq), left
 
 
+RIGHTS = ("white_kingside", "white_queenside", "black_kingside", "black_queenside")
 CORNERS = {(0, 0): "white_queenside", (0, 7): "white_kingside", (7, 0): "black_queenside", (7, 7): "black_kingside"}
 CORNER_COLOUR = {(0, 0): "White", (0, 7): "White", (7, 0): "Black", (7, 7): "Black"}
 
@@ -91,29 +92,42 @@ def revocation_cases(ix, b):
 
     def kind(k, c):
         return cases.enum_val(ix, "board::piece::Kind", k, [cases.enum_val(ix, "board::piece::Color", c)])
-    squares = [(0, 0), (0, 7), (7, 0), (7, 7), (3, 3)]
-    caps = [None, ("Rook", "White"), ("Rook", "Black"), ("Queen", "White"), ("Knight", "Black")]
+    from . import castlecases
     out = {}
-    for mk in ("King", "Rook", "Queen", "Bishop", "Knight", "Pawn"):
-        for mc in ("White", "Black"):
-            for ms in squares:
-                for cap in caps:
-                    for cd in (squares if cap is not None else [(4, 4)]):
-                        inp = {"*new_move.piece": kind(mk, mc), "*new_move.start": sq(*ms), "*new_move.dest": sq(*cd),
-                               "*new_move.is_castles": ("const", 0, "bool"),
-                               "*new_move.captured_piece": cases.option("Some", [kind(*cap)]) if cap else cases.option("None")}
-                        run = cases.run(ix, b, inp)
-                        fields, other = set(), set()
-                        for p in run.paths:
-                            for e in p.events:
-                                if e[0] == "store" and "castling_rights." in e[2]:
-                                    f = e[2].split("castling_rights.")[-1]
-                                    if e[3][0] == "agg" and e[3][2] == "Unavailable":
-                                        fields.add(f)
-                                    else:
-                                        other.add((f, expr_str(e[3])[:30]))
-                        undecided = run.overflow or any(p.end not in ("return", "panic", "unreachable") for p in run.paths)
-                        out[(mk, mc, ms, cap, cd)] = (fields, other, undecided)
+    for (mk, mc, ms, cap, cd) in castlecases.all_cases(b):
+        inp = {"*new_move.piece": kind(mk, mc), "*new_move.start": sq(*ms), "*new_move.dest": sq(*cd),
+               "*new_move.is_castles": ("const", 0, "bool"),
+               "*new_move.captured_piece": cases.option("Some", [kind(*cap)]) if cap else cases.option("None")}
+        run = cases.run(ix, b, inp)
+        fields, other = set(), set()
+        for p in run.paths:
+            for e in p.events:
+                if e[0] == "store" and "castling_rights." in e[2]:
+                    f = e[2].split("castling_rights.")[-1]
+                    if e[3][0] == "agg" and e[3][2] == "Unavailable":
+                        fields.add(f)
+                    else:
+                        other.add((f, expr_str(e[3])[:30]))
+        undecided = run.overflow or any(p.end not in ("return", "panic", "unreachable") for p in run.paths)
+        # ... and with all four rights still there, which of them are lost on *every* way through: a
+        # revocation guarded by anything but the presence of that very right is not one
+        always = None
+        for want_f in sorted(expected_revocations(mk, mc, ms, cap, cd)):
+            # that right alone being there must be enough for it to be lost
+            inp2 = dict(inp)
+            for f in RIGHTS:
+                inp2["*new_move.castling_rights." + f] = cases.enum_val(ix, "board::ply::castling::CastlingStatus", "Available" if f == want_f else "Unavailable")
+            run2 = cases.run(ix, b, inp2)
+            lost = True
+            for p in run2.paths:
+                if p.end != "return":
+                    continue
+                if not any(e[0] == "store" and e[2].endswith("castling_rights." + want_f) and e[3][0] == "agg" and e[3][2] == "Unavailable" for e in p.events):
+                    lost = False
+            if run2.overflow or any(p.end not in ("return", "panic", "unreachable") for p in run2.paths):
+                undecided = True
+            always = (always or set()) | ({want_f} if lost else set())
+        out[(mk, mc, ms, cap, cd)] = (fields, other, undecided, always)
     return out
 
 
@@ -128,9 +142,9 @@ def rule_revocation_table(ctx):
     ctx.check(not und, "revocation-cases-decided", "all %d cases of make_move_castling_checks were walked to the end" % len(table), b.where(0),
               bad_what="%d case(s) of make_move_castling_checks could not be walked (a loop over data, or too many paths), e.g. %s: cannot decide" % (len(und), und[:2]))
     missing, extra, other = {}, {}, []
-    for (mk, mc, ms, cap, cd), (fields, oth, _u) in table.items():
+    for (mk, mc, ms, cap, cd), (fields, oth, _u, always) in table.items():
         want = expected_revocations(mk, mc, ms, cap, cd)
-        for f in want - fields:
+        for f in (want - fields) | (want - always if always is not None else set()):
             # attribute the missing right to the oracle row responsible for it
             if mk == "King" and f.startswith(mc.lower()):
                 row = ("mover", "King", mc, None)
